@@ -328,23 +328,42 @@ inductive LOp where
   | push (x : Int)          -- `l.push x`              one `data_mut()`
   | pop                     -- `l.pop()`               one `data_mut()`
   | size                    -- `size l`                one `data()`
-  | get (i : Nat)           -- `l.get i`               one `data()`
+  | get (i : Nat)           -- `l.get i`, `l[i]`       one `data()`
   | first | last            -- `l.first()`, `l.last()` one `data()`
   | contains (x : Int)      -- `l.contains x`          one `data()`
   | set (i : Nat) (x : Int) -- `l[i] = x`              one `data_mut()` (run_index_assign)
   | clear                   -- `l.clear()`             one `data_mut()`
   | fill (x : Int)          -- `l.fill x`              one `data_mut()`
   | reverse                 -- `l.reverse()`           one `data_mut()`
-  | snapshot                -- `l.to_tuple()`          one `data()`
+  | snapshot                -- `l.to_tuple()`, `copy l`, `'{l}'`, `l + []`, `l[..]` … one `data()`
+  | sort                    -- `l.sort()`              one `data_mut()`: only permutes
+  | resize (n : Nat) (x : Int) -- `l.resize n, x`      one `data_mut()`
+  | extend (xs : List Int)  -- `l.extend (…)`          one `data_mut()` (argument collected first)
+  | insert (i : Nat) (x : Int) -- `l.insert i, x`      one `data_mut()`; error if i > len
+  | remove (i : Nat)        -- `l.remove i`            one `data_mut()`; error if i ≥ len
+  | retain (x : Int)        -- `l.retain x`            one `data_mut()`: keeps the elements equal to x
+  | isEmpty                 -- `l.is_empty()`          one `data()`
+  | eqTo (xs : List Int)    -- `l == [..]`             one `data()`
+  | swapWith (xs : List Int) -- `l.swap tmp; tmp.to_tuple()`: exchange with a private list,
+                            --                          one `data_mut()` on `l`; returns the old contents
+  | addAll (d : Int)        -- `l.transform |x| x + d` one `data_mut()` held across the (pure) callback
   deriving DecidableEq, Repr
 
 def LOp.isWrite : LOp → Bool
-  | .push _ | .pop | .set _ _ | .clear | .fill _ | .reverse => true
+  | .push _ | .pop | .set _ _ | .clear | .fill _ | .reverse | .sort | .resize _ _ | .extend _
+  | .insert _ _ | .remove _ | .retain _ | .swapWith _ | .addAll _ => true
   | _ => false
 
 def optRes : Option Int → Res
   | some x => .int x
   | none => .null
+
+/-- insertion sort (stable, ascending): the sequential meaning of `l.sort()` on integers -/
+def insertSorted (x : Int) : List Int → List Int
+  | [] => [x]
+  | y :: ys => if x < y then x :: y :: ys else y :: insertSorted x ys
+
+def sortInts (l : List Int) : List Int := l.foldl (fun acc x => insertSorted x acc) []
 
 def LOp.sem : LOp → List Int → List Int × Res
   | .push x, l => (l ++ [x], .unit)
@@ -359,21 +378,43 @@ def LOp.sem : LOp → List Int → List Int × Res
   | .fill x, l => (l.map (fun _ => x), .unit)
   | .reverse, l => (l.reverse, .unit)
   | .snapshot, l => (l, .ints l)
+  | .sort, l => (sortInts l, .unit)
+  | .resize n x, l => (l.take n ++ List.replicate (n - l.length) x, .unit)
+  | .extend xs, l => (l ++ xs, .unit)
+  | .insert i x, l => if i ≤ l.length then (l.take i ++ x :: l.drop i, .unit) else (l, .err)
+  | .remove i, l => match l[i]? with
+    | some v => (l.eraseIdx i, .int v)
+    | none => (l, .err)
+  | .retain x, l => (l.filter (· == x), .unit)
+  | .isEmpty, l => (l, .bool l.isEmpty)
+  | .eqTo xs, l => (l, .bool (l == xs))
+  | .swapWith xs, l => (xs, .ints l)
+  | .addAll d, l => (l.map (· + d), .unit)
 
 def LOp.toOp (o : LOp) : Op (List Int) Res := { write := o.isWrite, f := o.sem }
 
+/-- the value a one-argument `m.insert k` stores (Koto `null`); results show it as `null` -/
+def nullV : Int := -999999
+
 inductive MOp where
   | insert (k v : Int)      -- `m.insert k, v`     one `data_mut()`; returns the old value
+  | insert1 (k : Int)       -- `m.insert k`        one `data_mut()`; stores null, returns the old value
+  | put (k v : Int)         -- `m.k = v` (run_access_assign) one `data_mut()`
   | remove (k : Int)        -- `m.remove k`        one `data_mut()` (shift_remove); old value
-  | get (k : Int)           -- `m.get k`           one `data()`
+  | get (k : Int)           -- `m.get k`, `m.k`    one `data()`
   | containsKey (k : Int)   -- `m.contains_key k`  one `data()`
   | size                    -- `size m`            one `data()`
   | clear                   -- `m.clear()`         one `data_mut()`
-  | getIndex (i : Nat)      -- `m.get_index i`     one `data()`; a `(key, value)` pair
+  | getIndex (i : Nat)      -- `m.get_index i`, `m[i]`  one `data()`; a `(key, value)` pair
+  | sort                    -- `m.sort()`          one `data_mut()`: orders the entries by key
+  | extend (es : List (Int × Int)) -- `m.extend {…}` one `data_mut()`
+  | isEmpty                 -- `m.is_empty()`      one `data()`
+  | snapshot                -- `copy m`, `'{m}'`   one `data()`; flattened k v k v …
+  | eqTo (es : List (Int × Int)) -- `m == {…}`     (order-insensitive) one `data()`
   deriving DecidableEq, Repr
 
 def MOp.isWrite : MOp → Bool
-  | .insert _ _ | .remove _ | .clear => true
+  | .insert _ _ | .insert1 _ | .put _ _ | .remove _ | .clear | .sort | .extend _ => true
   | _ => false
 
 abbrev Assoc := List (Int × Int)
@@ -392,10 +433,23 @@ def Assoc.del (k : Int) : Assoc → Assoc
   | [] => []
   | (k', v') :: rest => if k' = k then rest else (k', v') :: Assoc.del k rest
 
+def Assoc.insertSorted (e : Int × Int) : Assoc → Assoc
+  | [] => [e]
+  | y :: ys => if e.1 < y.1 then e :: y :: ys else y :: Assoc.insertSorted e ys
+
+def Assoc.sortKeys (m : Assoc) : Assoc := m.foldl (fun acc e => Assoc.insertSorted e acc) []
+
+/-- a stored `null` reads as null -/
+def valRes : Option Int → Res
+  | some v => if v = nullV then .null else .int v
+  | none => .null
+
 def MOp.sem : MOp → Assoc → Assoc × Res
-  | .insert k v, m => (Assoc.put k v m, optRes (Assoc.find k m))
-  | .remove k, m => (Assoc.del k m, optRes (Assoc.find k m))
-  | .get k, m => (m, optRes (Assoc.find k m))
+  | .insert k v, m => (Assoc.put k v m, valRes (Assoc.find k m))
+  | .insert1 k, m => (Assoc.put k nullV m, valRes (Assoc.find k m))
+  | .put k v, m => (Assoc.put k v m, .unit)
+  | .remove k, m => (Assoc.del k m, valRes (Assoc.find k m))
+  | .get k, m => (m, valRes (Assoc.find k m))
   | .containsKey k, m => (m, .bool (Assoc.find k m).isSome)
   | .size, m => (m, .int m.length)
   | .clear, _ => ([], .unit)
@@ -403,6 +457,12 @@ def MOp.sem : MOp → Assoc → Assoc × Res
     (m, match m[i]? with
         | some (k, v) => .ints [k, v]
         | none => .null)
+  | .sort, m => (Assoc.sortKeys m, .unit)
+  | .extend es, m => (es.foldl (fun acc e => Assoc.put e.1 e.2 acc) m, .unit)
+  | .isEmpty, m => (m, .bool m.isEmpty)
+  | .snapshot, m => (m, .ints (m.flatMap (fun e => [e.1, e.2])))
+  | .eqTo es, m =>
+    (m, .bool (m.length == es.length && m.all (fun e => Assoc.find e.1 es == some e.2)))
 
 def MOp.toOp (o : MOp) : Op Assoc Res := { write := o.isWrite, f := o.sem }
 
